@@ -439,6 +439,20 @@ def _decide(mod, desc, opts, res, rlimit, V, ctx, claims, exc):
             res['notes'].append(f'solver returned unknown within rlimit {rlimit}')
         elif r == z3.sat:
             _replay_sat(mod, desc, res, V, s.model(), live)
+        # second solver (cvc5) on a sample of the decided queries: any disagreement is a harness error
+        if opts.get('cvc5') and r in (z3.unsat, z3.sat):
+            v2 = _cvc5_verdict(s)
+            res['cvc5'] = v2
+            if v2 in ('sat', 'unsat') and v2 != str(r):
+                res['status'] = 'error'
+                res['notes'].append(f'SOLVER DISAGREEMENT: z3 says {r}, cvc5 says {v2}')
+        # proxy fidelity: on exact pseudo-random rationals the same case must satisfy every equality
+        if opts.get('fidelity') and r == z3.unsat and not ctx.path:
+            bad = _fidelity(mod, desc, V, ctx, rlimit)
+            res['fidelity'] = 'ok' if bad is None else bad
+            if bad not in (None, 'skipped'):
+                res['status'] = 'error'
+                res['notes'].append('PROXY FIDELITY: the solver proved the equalities but exact rational evaluation disagrees: ' + bad)
         # canary: a deliberately wrong spec must be refuted
         if opts.get('canary') and r == z3.unsat:
             c = live[0]
@@ -471,6 +485,53 @@ def _decide(mod, desc, opts, res, rlimit, V, ctx, claims, exc):
             else:
                 res['status'] = 'error' if res['status'] == 'ok' else res['status']
                 res['notes'].append(f'{u.label}: sat witness did not reproduce concretely ({ok})')
+
+
+def _cvc5_verdict(z3solver, timeout_ms=20000):
+    """re-decide the assertions of a z3 solver with cvc5 (Python API); 'sat' | 'unsat' | 'unknown' | 'n/a'."""
+    try:
+        import cvc5
+    except ImportError:
+        return 'n/a'
+    try:
+        text = z3solver.to_smt2()
+        slv = cvc5.Solver()
+        slv.setOption('tlimit-per', str(timeout_ms))
+        slv.setLogic('QF_NRA')
+        parser = cvc5.InputParser(slv)
+        parser.setStringInput(cvc5.InputLanguage.SMT_LIB_2_6, text, 'q')
+        sm = parser.getSymbolManager()
+        result = None
+        while True:
+            cmd = parser.nextCommand()
+            if cmd.isNull():
+                break
+            out = cmd.invoke(slv, sm)
+            o = str(out).strip()
+            if o in ('sat', 'unsat', 'unknown'):
+                result = o
+        return result or 'unknown'
+    except Exception as e:  # noqa
+        return 'n/a'
+
+
+def _fidelity(mod, desc, V, ctx, rlimit):
+    """Evaluate the case on exact rationals satisfying the recorded side conditions; every Eq must hold."""
+    values = {}
+    if ctx.assumptions:
+        s = mk_solver(rlimit); s.add(*ctx.assumptions)
+        if s.check() != z3.sat:
+            return 'skipped'
+        values, exact = model_values(s.model(), V.names)
+        if not exact:
+            return 'skipped'
+    cclaims, cexc, _ = _run_concrete(mod, desc, values, seed=7)
+    if cexc is not None:
+        return 'skipped' if isinstance(cexc, ZeroDivisionError) else f'concrete run raised {type(cexc).__name__}: {cexc}'
+    for c in cclaims:
+        if isinstance(c, Eq) and not concrete_equal(c.lhs, c.rhs):
+            return f'{c.label}: {_fmt(c.lhs)} != {_fmt(c.rhs)}'
+    return None
 
 
 def _replay_sat(mod, desc, res, V, model, live):
@@ -511,6 +572,8 @@ def worker_chunk(modname, descs, opts):
     for i, d in enumerate(descs):
         o = dict(opts)
         o['canary'] = bool(opts.get('canary_every')) and (d.get('_idx', i) % opts['canary_every'] == 0)
+        o['fidelity'] = bool(opts.get('fidelity_every')) and (d.get('_idx', i) % opts['fidelity_every'] == 1)
+        o['cvc5'] = bool(opts.get('cvc5_every')) and (d.get('_idx', i) % opts['cvc5_every'] == 2)
         r = prove_case(mod, d, o)
         out.append(r)
     rec = kapi.recorder_snapshot()
